@@ -236,10 +236,11 @@ Qed.
 Lemma table_ok_step : forall mt prod now o tb, 1 <= mt -> table_ok mt tb ->
   table_ok mt (fst (fst (step fixed mt prod now o tb))).
 Proof.
-  intros mt prod now o tb Hmt Hok. destruct o as [u k h t|u|f|]; unfold step.
+  intros mt prod now o tb Hmt Hok. destruct o as [u k h t|u|f| |]; unfold step.
   - pose proof (table_ok_register mt u k h t tb Hmt Hok) as H. destruct (register fixed u k h t tb). exact H.
   - pose proof (table_ok_delete mt u tb Hok) as H. destruct (delete u tb). exact H.
   - pose proof (table_ok_notify mt prod f now tb Hmt Hok) as H. destruct (notify fixed mt prod f now tb). exact H.
+  - exact Hok.
   - exact Hok.
 Qed.
 
@@ -431,7 +432,7 @@ Definition sample_ops : list op :=
    OpNotify (fun u => if u =? 0 then OBody else OStatus 200);
    OpRestart;
    OpNotify (fun u => if u =? 2 then OStatus 404 else OStatus 200);
-   OpRegister 0 KCustom 1 1; OpRegister 1 KNone 0 0; OpDelete 2; OpDelete 2;
+   OpRegister 0 KCustom 1 1; OpBad; OpRegister 1 KNone 0 0; OpDelete 2; OpDelete 2;
    OpNotify fail503; OpNotify fail503; OpRestart].
 
 Example oracle_accepts_fixed_sample :
